@@ -82,6 +82,14 @@ def r1_raise_census(ctx, chk, rule="C06.1"):
             n += 1
             exc = r.exc
             name = None
+            if isinstance(exc, ast.Name) and exc.id not in ctx.prog.classes and not hasattr(__import__("builtins"), exc.id):
+                # `error = ValueError(...); error.detail = ...; raise error`: the object that the local was bound to
+                try:
+                    defs_ = ctx.cfg(f).defs_reaching(r, exc.id)
+                except AnalysisError:
+                    defs_ = set()
+                if defs_ and all(isinstance(d_, ast.Assign) and isinstance(d_.value, ast.Call) for d_ in defs_) and len({call_name(d_.value) for d_ in defs_}) == 1:
+                    exc = next(iter(defs_)).value
             if isinstance(exc, ast.Call):
                 name = call_name(exc)
             elif isinstance(exc, ast.Name):
@@ -294,6 +302,14 @@ def r2b_flag_raises(ctx, chk, rule="C06.2b"):
                 flagt = [c_ for c_ in cj if c_ == ("truthy", flags[-1])]
                 if q.endswith("StochasticGame.solve") and len(cj) == 2 and len(zero) == 1 and len(flagt) == 1 and e[2][0] == "call" and ctx.prog.exc_is_a(e[2][1], "ValueError"):
                     chk.ok(rule, f.where(), "%s raises ValueError iff <state list>[0].reach_probability == 0 and self.%s: the documented 'no solution' test, made in solve()" % (f.short, flags[-1][2]))
+                    continue
+                outside = [c_ for c_ in cj if c_[0] == "cmp" and c_[1] == "notin" and c_[2] == C(0) and any(t[0] == "call" and t[1] == "reverse_dfs" for t in C02._sub(c_[3]))]
+                if q.endswith("solve_reachability") and zero and outside and any(c_ == ("truthy", fl_) for c_ in cj for fl_ in flags) \
+                        and e[2][0] == "call" and ctx.prog.exc_is_a(e[2][1], "ValueError"):
+                    # before the sweep `reach_probability == 0` says "state 0 is not final"; not being in the backward search's result it is
+                    # never swept, so its value is still 0 at the documented test: the same verdict, given earlier
+                    chk.ok(rule, f.where(), "%s raises early when pruning, state 0 is outside the backward search's result and its (initial) value is 0: that state is not swept, so the "
+                           "documented 'no solution' test after the sweep would raise as well" % f.short)
                     continue
                 if any(C02._unresolved_obj(ctx)(t) for t in C02._sub(e[0])):
                     chk.undecided(rule, f.where(), "%s raises under `%s`: the condition reads an object that is not resolved (the documented 'no solution' test may have moved here)" % (
